@@ -304,6 +304,127 @@ Section EvalFrame.
   Qed.
 End EvalFrame.
 
+(** * the argument edges of an instantiation *)
+Lemma get_full_nth' {B} (l : list (name * B)) k : forall i j v,
+  get_full l k i = Some (j, v) -> i <= j /\ nth_error l (j - i) = Some (k, v).
+Proof.
+  induction l as [|[k' v'] l IH]; intros i j v H; cbn in H; [discriminate|].
+  destruct (N.eqb_spec k' k) as [->|Hne].
+  - injection H as <- <-. rewrite Nat.sub_diag. auto.
+  - apply IH in H as [L N]. split; [lia|]. replace (j - i) with (S (j - S i)) by lia. exact N.
+Qed.
+
+Lemma scan_same es index arg :
+  scan_incoming es index arg = ScanSame -> exists e, In e es /\ ek e = EArg index /\ esrc e = arg.
+Proof.
+  induction es as [|e r IH]; cbn; [discriminate|]. destruct (ek e) eqn:K; try discriminate.
+  destruct (Nat.eqb_spec i index) as [->|Hne].
+  - destruct (Nat.eqb_spec (esrc e) arg) as [<-|]; [|discriminate]. intros _. exists e. auto.
+  - intros H. destruct (IH H) as (e' & Hi & A & B). exists e'. auto.
+Qed.
+
+Section ArgEdges.
+  Variable u : universe.
+
+  (** membership in [get_args], unfolded *)
+  Definition has_arg (g : gstate) (inst : nat) (a : name) (arg : nat) : Prop :=
+    exists nd sat imps e i k,
+      get_node g inst = Some nd /\ nk nd = NInst sat /\ inst_imports u g nd = Some imps /\
+      In e (edges g) /\ etgt e = inst /\ esrc e = arg /\ ek e = EArg i /\ nth_error imps i = Some (a, k).
+
+  Lemma has_arg_get_args g inst a arg : has_arg g inst a arg -> In (a, arg) (get_args u g inst).
+  Proof.
+    intros (nd & sat & imps & e & i & k & G & K & Im & He & T & S & Ke & Nt). unfold get_args. rewrite G, K, Im.
+    apply in_flat_map. exists e. split.
+    - unfold incoming. apply filter_In. split; auto. now apply Nat.eqb_eq.
+    - rewrite Ke, Nt, S. now left.
+  Qed.
+
+  Lemma inst_imports_same g g' nd nd' : pkgs g' = pkgs g -> npkg nd' = npkg nd -> inst_imports u g' nd' = inst_imports u g nd.
+  Proof. intros P N. unfold inst_imports, pkg_desc, get_pkg. now rewrite N, P. Qed.
+
+  (** a successful [set_arg] makes the node an argument *)
+  Lemma set_arg_adds g inst a arg g' :
+    set_arg u g inst a arg = (g', OUnit) -> has_arg g' inst a arg.
+  Proof.
+    unfold set_arg. destruct (get_node g inst) as [nd|] eqn:G; [|discriminate].
+    destruct (nk nd) as [| |sat|] eqn:K; try discriminate.
+    destruct (inst_imports u g nd) as [imps|] eqn:Im; [|discriminate].
+    destruct (get_full imps a 0) as [[index expected]|] eqn:GF; [|discriminate].
+    apply get_full_nth' in GF as [_ Nt]. rewrite Nat.sub_0_r in Nt.
+    destruct (scan_incoming (incoming g inst) index arg) eqn:Sc; try discriminate.
+    - (* fresh edge *)
+      destruct (get_node g arg) as [an|]; [|discriminate].
+      destruct (negb (u_sub u (nitem an) expected)); [discriminate|].
+      unfold add_satisfied.
+      change (get_node (add_edge g {| esrc := arg; etgt := inst; ek := EArg index |}) inst) with (get_node g inst).
+      rewrite G, K. destruct (existsb (Nat.eqb index) sat); [discriminate|]. intros [= <-].
+      set (nd' := {| nk := NInst (index :: sat); npkg := npkg nd; nitem := nitem nd; nname := nname nd; nexport := nexport nd |}).
+      exists nd', (index :: sat), imps, {| esrc := arg; etgt := inst; ek := EArg index |}, index, expected.
+      split.
+      { unfold get_node, set_node. cbn. rewrite nth_error_set_nth', Nat.eqb_refl.
+        assert (L : inst < length (nodes g)).
+        { apply nth_error_Some. unfold get_node in G. intros X. rewrite X in G. discriminate. }
+        apply Nat.ltb_lt in L. now rewrite L. }
+      split; [reflexivity|]. split; [rewrite <- Im; now apply inst_imports_same|].
+      split; [cbn; now left|]. cbn. auto.
+    - (* already passed by the same node *)
+      intros [= <-]. apply scan_same in Sc as (e & He & Ke & Se).
+      unfold incoming in He. apply filter_In in He as [He T]. apply Nat.eqb_eq in T.
+      exists nd, sat, imps, e, index, expected. repeat split; auto.
+  Qed.
+
+  (** ... and keeps the arguments already there *)
+  Lemma set_arg_keeps g inst a arg g' o inst0 a0 arg0 :
+    set_arg u g inst a arg = (g', o) -> has_arg g inst0 a0 arg0 -> has_arg g' inst0 a0 arg0.
+  Proof.
+    intros H (nd0 & sat0 & imps0 & e0 & i0 & k0 & G0 & K0 & Im0 & He0 & T0 & S0 & Ke0 & Nt0).
+    unfold set_arg in H. destruct (get_node g inst) as [nd|] eqn:G; [|injection H as <- _; exists nd0, sat0, imps0, e0, i0, k0; auto 10].
+    destruct (nk nd) as [| |sat|] eqn:K; try (injection H as <- _; exists nd0, sat0, imps0, e0, i0, k0; auto 10; fail).
+    destruct (inst_imports u g nd) as [imps|] eqn:Im; [|injection H as <- _; exists nd0, sat0, imps0, e0, i0, k0; auto 10].
+    destruct (get_full imps a 0) as [[index expected]|]; [|injection H as <- _; exists nd0, sat0, imps0, e0, i0, k0; auto 10].
+    destruct (scan_incoming (incoming g inst) index arg); try (injection H as <- _; exists nd0, sat0, imps0, e0, i0, k0; auto 10; fail).
+    destruct (get_node g arg) as [an|]; [|injection H as <- _; exists nd0, sat0, imps0, e0, i0, k0; auto 10].
+    destruct (negb (u_sub u (nitem an) expected)); [injection H as <- _; exists nd0, sat0, imps0, e0, i0, k0; auto 10|].
+    unfold add_satisfied in H.
+    change (get_node (add_edge g {| esrc := arg; etgt := inst; ek := EArg index |}) inst) with (get_node g inst) in H.
+    rewrite G, K in H. destruct (existsb (Nat.eqb index) sat); [injection H as <- _; exists nd0, sat0, imps0, e0, i0, k0; auto 10|].
+    injection H as <- _.
+    set (nd' := {| nk := NInst (index :: sat); npkg := npkg nd; nitem := nitem nd; nname := nname nd; nexport := nexport nd |}).
+    assert (L : inst < length (nodes g)).
+    { apply nth_error_Some. unfold get_node in G. intros X. rewrite X in G. discriminate. }
+    apply Nat.ltb_lt in L.
+    destruct (Nat.eq_dec inst0 inst) as [->|Hne].
+    - rewrite G in G0. injection G0 as <-. rewrite K in K0. injection K0 as <-.
+      exists nd', (index :: sat), imps0, e0, i0, k0. split.
+      { unfold get_node, set_node. cbn. now rewrite nth_error_set_nth', Nat.eqb_refl, L. }
+      split; [reflexivity|]. split; [rewrite <- Im0; now apply inst_imports_same|].
+      split; [cbn; now right|]. auto.
+    - exists nd0, sat0, imps0, e0, i0, k0. split.
+      { unfold get_node, set_node. cbn. rewrite nth_error_set_nth'. apply Nat.eqb_neq in Hne. now rewrite Hne. }
+      split; auto. split; [rewrite <- Im0; now apply inst_imports_same|]. split; [cbn; now right|]. auto.
+  Qed.
+End ArgEdges.
+
+Section SetArgs.
+  Variable u : runiverse.
+
+  (** every entry of the table is an argument of the instantiation afterwards *)
+  Lemma set_args_all inst : forall t st st',
+    set_args u inst t st = inl (tt, st') ->
+    (forall a0 arg0, has_arg u (rs_g st) inst a0 arg0 -> has_arg u (rs_g st') inst a0 arg0) /\
+    (forall nm n at_, In (nm, (n, at_)) t -> has_arg u (rs_g st') inst (ru_intern u nm) n).
+  Proof.
+    induction t as [|[nm [n at_]] r IH]; intros st st' H.
+    - cbn in H. apply ret_inl in H as [_ ->]. split; auto. intros ? ? ? [].
+    - cbn [set_args] in H. apply bind_inl in H as (o & s1 & H1 & H). apply gop_inl in H1 as [H1 _].
+      destruct o as [| | |e|p]; try discriminate. 2:{ destruct e; discriminate. }
+      apply IH in H as [Keep All]. split.
+      + intros a0 arg0 HA. apply Keep. eapply set_arg_keeps; eauto.
+      + intros nm' n' at' [[= <- <- <-]|Hin]; [|eauto]. apply Keep. eapply set_arg_adds; eauto.
+  Qed.
+End SetArgs.
+
 Lemma str_eq_dec (a b : str) : {a = b} + {a <> b}.
 Proof. destruct (str_eqb a b) eqn:E; [left; now apply str_eqb_eq|right; intros ->; rewrite str_eqb_refl in E; discriminate]. Qed.
 
@@ -377,12 +498,14 @@ Section NewExpr.
       names it exports that were still unbound (and at least one); and every import of the
       instantiated package is bound by the FIRST applicable rule -- the explicit argument of that
       name, else the first spread (in order) whose instance exports it, else it is left to be an
-      implicit import when [...] is present -- and none is missing. *)
+      implicit import when [...] is present -- and none is missing.  Every table entry is an argument
+      of the new instantiation in the resulting graph ([get_args]). *)
   Theorem new_expr_binding evalf pkg args st inst st' :
     new_expr u self_name evalf pkg args st = inl (inst, st') ->
     args_framed evalf args -> nofree (rs_g st) ->
     exists id pd t1 req recs t2,
       pkg_desc u (rs_g st') id = Some pd /\
+      (forall nm n at_, im_get t2 nm = Some (n, at_) -> In (ru_intern u nm, n) (get_args u (rs_g st') inst)) /\
       (NoDup (map fst (text_items u (pd_imports pd))) ->
         NoDup (map fst t1) /\ length t1 = length (filter is_explicit_arg args) /\
         req = negb (existsb is_fill_arg args) /\
@@ -418,7 +541,11 @@ Section NewExpr.
       - destruct (pass2_inl u _ args _ _ _ _ H2 (gf_free _ _ G1) ND) as (recs & Ids & _ & SF & _). exists recs. auto.
       - exists (map (fun id => {| sr_id := id; sr_item := 0; sr_exports := []; sr_adds := [] |}) (spread_idents args)).
         split; [rewrite map_map; cbn; apply map_id|]. intros ND. contradiction. }
-    exists recs, t2. split; [exact PD'|]. intros ND. specialize (SFh ND).
+    exists recs, t2. split; [exact PD'|].
+    split.
+    { intros nm n at_ L. apply im_get_In in L. apply has_arg_get_args.
+      destruct (set_args_all u inst t2 _ _ H4) as [_ All]. eapply All; eauto. }
+    intros ND. specialize (SFh ND).
     split; [exact ND1|]. split; [exact L1|]. split; [now rewrite Rq|]. split; [exact FL|]. split; [exact Ids|]. split; [exact SFh|].
     intros i Hi. pose proof (spreads_from_binding u _ (negb req) _ _ _ SFh ND i Hi) as B.
     destruct (bind_import t1 (map to_src recs) (negb req) i) eqn:BI; auto.
